@@ -1651,14 +1651,14 @@ async fn judge_run(sc: &Scenario, out: &RunOut) -> Judged {
             let holds = out.a_holds.contains(&bh);
             let own_block_there = sc.a_chain.get(id as usize - 1).map(|x| x.hash != bh).unwrap_or(false);
             let older_in_slot = id > ring && (id - ring <= a_old_tip || out.ghost_ids.contains(&(id - ring)));
+            // (two further classes were listed until they were repaired in /repo: a ghost block
+            // appended behind an older entry of its ring slot - 14111d3 - and the start hash of an
+            // unindexed block - 4c0e632; such heights are failures now)
+            let _ = (own_block_there, older_in_slot, start_parent_unindexed);
             if !streamed && forked && id <= a_old_tip {
                 Some("ghost-chain-starts-at-asker-tip")
-            } else if streamed && holds && (own_block_there || older_in_slot) {
-                Some("ghost-block-behind-older-slot-entry")
             } else if streamed && holds && out.ghost_fetch_ids.iter().any(|f| *f < id) {
                 Some("ghosts-after-fetched-block-not-adopted")
-            } else if streamed && !holds && start_parent_unindexed {
-                Some("ghost-start-hash-of-unindexed-block")
             } else {
                 None
             }
